@@ -4,6 +4,10 @@ import json, os
 HERE = os.path.dirname(os.path.dirname(os.path.abspath(__file__)))
 
 CHECKS = {
+ 'C16': dict(level='exploration', design='2/C16',
+   technique='exhaustive single-edit enumeration of signatures, certificates and SSHSIG blobs on the real verification code, an exhaustive acceptance grid of hand-built certificates against an independent predicate, and ssh-keygen as second implementation',
+   text='Every key type x signature algorithm x 3 messages: the signature verifies; every single-byte xor/delete/insert of the signature blob, message edits, relabelling with every other algorithm name and another key must not verify. Every single-byte edit of user and host certificates from 7 CA key types must fail import or validation. A grid of hand-built ed25519 certificates (type x intended use x validity window touching the clock x principals x wanted principal x critical options and extensions incl. unknown ones) is compared with a predicate from PROTOCOL.certkeys; ssh-keygen -s output is read identically and asyncssh certificates are printed correctly by ssh-keygen -L. SSHSIG: 13 allowed-signers option forms x clock x principal, message/namespace/CA binding, every single-byte edit, ssh-keygen -Y both ways.',
+   note='two names for the byte-identical algorithm (rsa-sha2-256 / ssh-rsa-sha256@ssh.com) are treated as one algorithm; sk-* and X.509 not covered.'),
  'C15': dict(level='exploration', design='2/C15',
    technique='exhaustive enumeration of the key type x format x cipher x hash x PBES version x passphrase x comment matrix executed on the real import/export code, with PyCA, ssh-keygen and openssl as independent readers and writers',
    text='For 7 key types every private export scheme asyncssh offers (5 plain, 5 PKCS#1 ciphers, 2x6 PBES1/PKCS#12 and 2x35 PBES2 combinations) is exported and re-imported: equal key, same public half; five wrong-passphrase variants (incl. same first 32 characters) must be rejected with the documented error. Public formats x comments with double blanks, tabs and non-UTF-8 bytes must round-trip. PyCA loaders, ssh-keygen -y/-l/-e and openssl pkey must read the same key; keys written by ssh-keygen (3 formats) and openssl pkcs8 -topk8 (PKCS#12 KDF and PBES2, passphrases of 1..33 characters) must be read identically by asyncssh; concatenated multi-key files in every order.',
